@@ -18,7 +18,7 @@ Definition status_of_index (z : Z) : status :=
 
 Inductive kcase :=
 (* target 0: DrandDaemon.Packet, 1: dkg.Process.Packet; exec_ids: ids with a running broadcaster *)
-| KPacket (target : Z) (g : gossip) (exists_ : bool) (status_idx : Z) (leader_set fg_set : bool)
+| KPacket (target : Z) (g : gossip) (exists_ : bool) (status_idx : Z) (leader_set fg_set timed_out me_leaving me_member : bool)
           (exec_ids : list str) (obs : Z)
 (* target 0: DrandDaemon.BroadcastDKG, 1: dkg.Process.BroadcastDKG *)
 | KBcast (target : Z) (d : dkg_shape) (exist_ids exec_ids : list str) (deep_ok : bool) (obs : Z)
@@ -30,8 +30,8 @@ Inductive kcase :=
 
 Definition ok (c : kcase) : bool :=
   match c with
-  | KPacket target g ex st ls fg exec_ids obs =>
-      let ns := mkN ex false (status_of_index st) ls fg in
+  | KPacket target g ex st ls fg to ml mm exec_ids obs =>
+      let ns := mkN ex false (status_of_index st) ls fg to ml mm in
       let d := if target =? 0 then decide_packet_daemon g ns (in_ids exec_ids)
                else decide_packet_process g ns (in_ids exec_ids) in
       class_of d =? obs
